@@ -134,12 +134,32 @@ func devSet(devs []string) string {
 
 // Enumerate runs the MC module: design-level invariants + unit emission.
 func Enumerate(f *Family, sc *work.Scratch, devs []string, tier string) ([]*Unit, *tlc.Result, error) {
-	units, res, err := enumerateOne(f.Module, f.ExtraCfg, sc, devs, tier)
+	type enumRes struct {
+		us  []*Unit
+		r   *tlc.Result
+		err error
+	}
+	all := make([]enumRes, 1+len(f.More))
+	var wg sync.WaitGroup
+	wg.Add(1)
+	go func() {
+		defer wg.Done()
+		all[0].us, all[0].r, all[0].err = enumerateOne(f.Module, f.ExtraCfg, sc, devs, tier)
+	}()
+	for i, x := range f.More {
+		wg.Add(1)
+		go func(i int, x Extra) {
+			defer wg.Done()
+			all[i+1].us, all[i+1].r, all[i+1].err = enumerateOne(x.Module, x.ExtraCfg, sc, devs, tier)
+		}(i, x)
+	}
+	wg.Wait()
+	units, res, err := all[0].us, all[0].r, all[0].err
 	if err != nil {
 		return nil, res, err
 	}
-	for _, x := range f.More {
-		us, r, err := enumerateOne(x.Module, x.ExtraCfg, sc, devs, tier)
+	for i, x := range f.More {
+		us, r, err := all[i+1].us, all[i+1].r, all[i+1].err
 		if err != nil {
 			return nil, r, err
 		}
